@@ -229,6 +229,11 @@ pub fn make_config(args: &Args, state: &State) -> Result<Config> {
 							emit_events_to,
 							add_envs,
 						);
+
+						#[cfg(feature = "verif-hooks")]
+						if let Some(extra) = crate::verif::EXTRA_SPAWN_HOOK.lock().expect("verif hook lock").as_ref() {
+							extra(command);
+						}
 					}
 				});
 
